@@ -729,6 +729,36 @@ def pick_sids(rng, focus):
     return sids
 
 
+def anti_block_history(rng):
+    """a storage with at least one component in every 64-index word of a whole 4096-index block (but far from full),
+    joined negated - sequentially, lending and in parallel - with the entities and with bit sets: the holes of such a
+    block must all be delivered"""
+    g = JGen(rng, "par")
+    sid = rng.choice([0, 1, 2, 3, 4])
+    other = rng.choice([s for s in range(6) if s != sid])
+    g.register(sid)
+    g.register(other)
+    n = rng.choice([4100, 4160, 8200])
+    g.hist.append((wg.CI, [n]))
+    g.created(n)
+    g.n0 = n
+    base = 4096 if n >= 8200 and rng.random() < 0.5 else 0
+    for w in range(64):
+        for h in sorted(set(base + 64 * w + rng.randrange(64) for _ in range(rng.randint(1, 2)))):
+            u, v = g.tok(sid)
+            g.hist.append((sg.INS, [sid, h, u, v]))
+    holes = sorted(set(base + rng.randrange(4096) for _ in range(40)))
+    for h in holes[::2]:
+        u, v = g.tok(other)
+        g.hist.append((sg.INS, [other, h, u, v]))
+    for kind, arg in ((K_PAR, rng.choice([2, 4, 8])), (K_JOIN, -1), (K_PAR, 1024 + 2)):
+        g.hist.append((JOIN, [kind, arg, 2, M_ANTI, sid, M_BITS, len(holes)] + holes))
+        g.hist.append((JOIN, [kind, arg, 2, M_ANTI, sid, M_READ, other]))
+    g.hist.append((JOIN, [K_PAR, 4, 3, M_ANTI, sid, M_ENTS, M_BITS, len(holes)] + holes))
+    g.hist.append((sg.DROPW, []))
+    return g.hist
+
+
 def hash_stress_history(rng):
     """several thousand components in a hash-map storage, fetched and written through the mutable restricted view by a
     parallel join on many threads, several times over: every item looks its own index up twice (get, then get_mut)
